@@ -111,6 +111,8 @@ impl Script {
             let name = Path::new(program).file_name().map(|n| n.to_string_lossy().into_owned()).unwrap_or_default();
             return Ok(if name == "gcc" {
                 MockChild::new(status(0), "compiler_id=gcc\ncompiler_version=\"12.2.0\"\n", "")
+            } else if name == "clang" {
+                MockChild::new(status(0), "compiler_id=clang\ncompiler_version=\"14.0.6\"\n", "")
             } else {
                 MockChild::new(status(0), "", "not a known compiler")
             });
@@ -128,6 +130,10 @@ impl Script {
         };
         let o = self.oracles.lock().unwrap()[t];
         if args.iter().any(|a| a == "-E") {
+            if o.pp_status == 99 {
+                // a bug on the way to running the preprocessor
+                panic!("injected panic while spawning the preprocessor");
+            }
             self.pp_runs[t].fetch_add(1, Ordering::SeqCst);
             self.cur_pp.fetch_add(1, Ordering::SeqCst);
             if o.pp_status != 0 {
@@ -140,6 +146,9 @@ impl Script {
             return Ok(MockChild::new(status(0), out, ""));
         }
         // the compilation proper
+        if o.c_status == 99 {
+            panic!("injected panic while spawning the compiler");
+        }
         self.cc_runs[t].fetch_add(1, Ordering::SeqCst);
         let mut out: Option<PathBuf> = None;
         let mut it = args.iter();
@@ -194,6 +203,7 @@ enum PpGet {
     Garbage,
     Truncated,
     Empty,
+    Panic,
 }
 #[derive(Clone, Copy, PartialEq, Eq, Debug, Default)]
 enum PutF {
@@ -202,6 +212,7 @@ enum PutF {
     Err,
     TooLarge,
     Ro,
+    Panic,
 }
 #[derive(Clone, Copy, PartialEq, Eq, Debug, Default)]
 enum GetF {
@@ -214,6 +225,7 @@ enum GetF {
     Truncated,
     BadObj,
     NoObj,
+    Panic,
 }
 #[derive(Clone, Copy, Default, Debug)]
 struct Faults {
@@ -344,6 +356,8 @@ impl Storage for FaultStorage {
             }
             GetF::BadObj => Ok(Cache::Hit(CacheRead::from(Cursor::new(good_zip(Some(b"this is not zstd"), true)))?)),
             GetF::NoObj => Ok(Cache::Hit(CacheRead::from(Cursor::new(good_zip(None, false)))?)),
+            // a bug in the storage backend (an unwrap, a poisoned lock, ...)
+            GetF::Panic => panic!("injected panic in Storage::get"),
         }
     }
 
@@ -354,6 +368,7 @@ impl Storage for FaultStorage {
             PutF::Err => Err(anyhow::anyhow!("injected storage write error")),
             PutF::TooLarge => Err(sccache::lru_disk_cache::Error::FileTooLarge.into()),
             PutF::Ro => ReadOnlyStorage(self.inner.clone()).put(key, entry).await,
+            PutF::Panic => panic!("injected panic in Storage::put"),
         }
     }
 
@@ -401,6 +416,7 @@ impl Storage for FaultStorage {
                 sub(bytes[..n].to_vec())
             }
             PpGet::Empty => sub(vec![]),
+            PpGet::Panic => panic!("injected panic in Storage::get_preprocessor_cache_entry"),
         }
     }
 
@@ -416,6 +432,7 @@ impl Storage for FaultStorage {
             PutF::None => self.inner.put_preprocessor_cache_entry(key, e).await,
             PutF::Err | PutF::TooLarge => Err(anyhow::anyhow!("injected preprocessor cache write error")),
             PutF::Ro => ReadOnlyStorage(self.inner.clone()).put_preprocessor_cache_entry(key, e).await,
+            PutF::Panic => panic!("injected panic in Storage::put_preprocessor_cache_entry"),
         }
     }
 }
@@ -504,7 +521,7 @@ fn parse_faults(x: &Sx) -> Result<Faults, String> {
     if l.len() != 5 {
         return Err("faults arity".into());
     }
-    let put_t = [("none", PutF::None), ("err", PutF::Err), ("toolarge", PutF::TooLarge), ("ro", PutF::Ro)];
+    let put_t = [("none", PutF::None), ("err", PutF::Err), ("toolarge", PutF::TooLarge), ("ro", PutF::Ro), ("panic", PutF::Panic)];
     Ok(Faults {
         ppget: sym_of(
             &l[0],
@@ -515,6 +532,7 @@ fn parse_faults(x: &Sx) -> Result<Faults, String> {
                 ("garbage", PpGet::Garbage),
                 ("truncated", PpGet::Truncated),
                 ("empty", PpGet::Empty),
+                ("panic", PpGet::Panic),
             ],
             "ppget",
         )?,
@@ -531,6 +549,7 @@ fn parse_faults(x: &Sx) -> Result<Faults, String> {
                 ("truncated", GetF::Truncated),
                 ("badobj", GetF::BadObj),
                 ("noobj", GetF::NoObj),
+                ("panic", GetF::Panic),
             ],
             "get",
         )?,
@@ -573,6 +592,7 @@ impl World {
         std::fs::create_dir_all(&cwd).unwrap();
         std::fs::create_dir_all(&cache).unwrap();
         std::fs::write(cwd.join("gcc"), b"#!/bin/sh\n").unwrap();
+        std::fs::write(cwd.join("clang"), b"#!/bin/sh\n# clang\n").unwrap();
         std::fs::write(cwd.join("unk"), b"#!/bin/sh\n").unwrap();
         let old = filetime::FileTime::from_unix_time(1_600_000_000, 0);
         for t in 0..NTU {
@@ -614,7 +634,18 @@ impl World {
         let _ = std::fs::remove_file(&out);
         let src = format!("tu{}.c", t);
         let (exe, args): (PathBuf, Vec<String>) = match r.class.as_str() {
-            "compile" => (self.cwd.join("gcc"), vec!["-c".into(), src, "-o".into(), out_rel]),
+            // four (language, compiler) pairs of ONE language family: unit 0 c [gcc], 1 c++ [gcc], 2 c [clang],
+            // 3 c++ [clang] — one per-language key, four per-language-and-compiler keys
+            "compile" => {
+                let exe = self.cwd.join(if t >= 2 { "clang" } else { "gcc" });
+                let mut a: Vec<String> = vec![];
+                if t % 2 == 1 {
+                    a.push("-x".into());
+                    a.push("c++".into());
+                }
+                a.extend(["-c".to_string(), src, "-o".to_string(), out_rel]);
+                (exe, a)
+            }
             "unsupported" => (self.cwd.join("unk"), vec!["-c".into(), src, "-o".into(), out_rel]),
             "vanished" => (self.cwd.join("gone-gcc"), vec!["-c".into(), src, "-o".into(), out_rel]),
             "notcompile" => (self.cwd.join("gcc"), vec![src, "-o".into(), format!("tu{}", t)]),
@@ -641,7 +672,16 @@ impl World {
     }
 
     /// Run one compile request through the real `Service::call`; returns the client-side view.
+    /// `run_req_inner` with a guard: a request that is never answered is reported as `hung` (10 minutes, real or
+    /// virtual; far beyond the 60 s lookup time-out).
     async fn run_req(service: SccacheService<Creator>, msg: Request, out: PathBuf) -> Sx {
+        match tokio::time::timeout(Duration::from_secs(600), World::run_req_inner(service, msg, out)).await {
+            Ok(x) => x,
+            Err(_) => Sx::L(vec![Sx::L(vec![Sx::sym("hung")]), Sx::L(vec![])]),
+        }
+    }
+
+    async fn run_req_inner(service: SccacheService<Creator>, msg: Request, out: PathBuf) -> Sx {
         let call = std::panic::AssertUnwindSafe(service.verif_call(msg)).catch_unwind().await;
         let client = match call {
             Err(_) => Sx::L(vec![Sx::sym("panic")]),
